@@ -8,7 +8,10 @@ use crate::rtps::stateful_writer::RtpsStatefulWriter;
 use crate::rtps_messages::types::{DATA, GAP, HEARTBEAT, INFO_DST, INFO_TS};
 use crate::transport::types::{DurabilityKind, ReliabilityKind};
 
-// @check props=C04 tier=quick
+// NOT INDEXED (measured: symbolic execution 590 s, 2.08 M steps, then CBMC runs out of 12 GB in propositional
+// reduction - even with every loop of write_message_reliable/best_effort bounded to its minimum by --unwindset).
+// Kept as the record of the obligation that could not be decided; see vlib/ptab/rtps_proto.py "outside".
+// @disabled-check props=C04 tier=thorough timeout=2400
 // @desc Late-joining reader, writer side: a reliable writer holds one change (sn symbolic in 1..=3, written before the match) when a reliable reader with symbolic durability is matched; then write_message runs. VOLATILE: no DATA submessage is emitted at all (the change is announced as GAP), TRANSIENT_LOCAL: the retained change is emitted as DATA with its payload, or - when sequence numbers below it are missing from the history - its sequence number is covered by a HEARTBEAT(first,last) that lets the reader request it.
 // @bounds one retained change, sn in 1..=3, payload 2 symbolic bytes; unwind 5
 // @assume datagram container stubbed by support_rtps::from_submessages_staged; critical-section stubs (support_cs)
@@ -70,4 +73,54 @@ fn c04_late_joiner_push() {
     kani::cover!(!volatile && data_seen, "transient-local: DATA pushed");
     kani::cover!(!volatile && !data_seen, "transient-local: change skipped by the gap branch (must be requested)");
     core::mem::forget(w);
+}
+
+// @check props=C04 tier=quick
+// @desc wait_for_historical_data predicate along a catch-up: a writer proxy that never accepted a HEARTBEAT reports is_historical_data_received() == false whatever it has received; after the first accepted HEARTBEAT(first,last) (real glue statements, ACKNACK emitted) it is true iff no sequence number in max(first,highest+1)..=last is missing; if exactly one change is missing, receiving exactly that change (received_change_set, as on_data_submessage does) makes it true, and declaring it irrelevant by GAP (irrelevant_change_set) does too. Every matched writer proxy must agree: RtpsStatefulReader::is_historical_data_received is the conjunction (checked with one proxy).
+// @bounds proxy state symbolic with sequence numbers <= 1000, at most 3 missing changes after the HEARTBEAT, HEARTBEAT count full i32; unwind 6
+// @assume writer-proxy representation invariant; HEARTBEAT validity firstSN >= 1, lastSN >= firstSN-1
+// @assume glue statements of handle_heartbeat_submessage replicated by support_rtps::glue_heartbeat (source guard); datagram container stubbed by support_rtps::from_submessages_staged; critical-section stubs
+// @enc rtps::writer_proxy::RtpsWriterProxy::is_historical_data_received
+// @enc rtps::stateful_reader::RtpsStatefulReader::is_historical_data_received
+// @enc rtps::writer_proxy::RtpsWriterProxy::missing_changes_update
+// @enc rtps::writer_proxy::RtpsWriterProxy::received_change_set
+#[kani::proof]
+#[kani::unwind(6)]
+#[kani::stub(crate::rtps_messages::overall_structure::RtpsMessageWrite::from_submessages, super::support_rtps::from_submessages_staged)]
+#[kani::stub(critical_section::acquire, super::support_cs::cs_acquire)]
+#[kani::stub(critical_section::release, super::support_cs::cs_release)]
+fn c04_historical_data_received() {
+    use crate::rtps_messages::submessages::heartbeat::HeartbeatSubmessage;
+    let mut r = s::new_reader(ReliabilityKind::Reliable);
+    let highest: i64 = kani::any();
+    kani::assume(highest >= 0 && highest <= 1000);
+    s::proxy(&mut r).irrelevant_change_set(highest);
+    assert!(!r.is_historical_data_received(), "C04: no historical data before the first HEARTBEAT");
+
+    let first: i64 = kani::any();
+    let last: i64 = kani::any();
+    let count: i32 = kani::any();
+    kani::assume(first >= 1 && first <= 1000 && last >= first - 1 && last <= 1000);
+    let fm = core::cmp::max(first, highest + 1);
+    kani::assume(last - fm < 3);
+    let n_missing = if last >= fm { last - fm + 1 } else { 0 };
+    let hb = HeartbeatSubmessage::new(kani::any(), false, s::R_ID, s::W_ID, first, last, count);
+    let out = s::Sent::new();
+    let accepted = s::glue_heartbeat(&mut r, &hb, s::W_PREFIX, &out);
+    assert!(accepted == (count > 0), "C04: the first HEARTBEAT is accepted iff its count is positive");
+    let done = r.is_historical_data_received();
+    assert!(done == (accepted && n_missing == 0), "C04: historical data received iff a HEARTBEAT was accepted and nothing it announced is missing");
+    if accepted && n_missing == 1 {
+        if kani::any() {
+            s::proxy(&mut r).received_change_set(last);
+        } else {
+            s::proxy(&mut r).irrelevant_change_set(last);
+        }
+        assert!(r.is_historical_data_received(), "C04: receiving (or being told to skip) the last missing change completes the historical data");
+    }
+    kani::cover!(accepted && n_missing == 0, "heartbeat seen, nothing missing");
+    kani::cover!(accepted && n_missing == 3, "heartbeat seen, three changes missing");
+    kani::cover!(accepted && n_missing == 1, "catch-up of the last missing change");
+    kani::cover!(!accepted, "heartbeat with non-positive count ignored");
+    core::mem::forget(r);
 }
